@@ -1074,3 +1074,9 @@ pub fn hint_pick(len: usize, salt: usize) -> (usize, Option<usize>) {
     let h = honest_hints(len);
     h[salt % h.len()]
 }
+
+/// The path 0 -> 1 -> ... -> n-1 (a second digraph of another order for
+/// clone_from targets).
+pub fn path_dg(n: usize) -> Dg {
+    Dg { order: n.max(1), arcs: (1..n.max(1)).map(|v| (v - 1, v)).collect() }
+}
